@@ -127,6 +127,12 @@ def r2_subsumption(ctx):
         rs = RM + 'make_union::remove_subsumed'
         fn = cr.fn(rs)
         if fn is None:
+            # the helper nested in make_union may have been hoisted to module level: the one function of that name
+            cands = [f.path for f in cr.nontest_fns() if f.path.rsplit('::', 1)[-1] == 'remove_subsumed' and f.path.startswith('regular_expressions::')]
+            if len(cands) == 1:
+                rs = cands[0]
+                fn = cr.fn(rs)
+        if fn is None:
             ctx.unanalysable('C16.R2', 'C16.R2/remove_subsumed/missing', rs, None, None, cfg)
             continue
         ip = X.Interp(cr, uninterpreted=lambda p: not p.endswith('is_subsumed') and not p.endswith('PartialEq>::eq') and not p.endswith('PartialEq<&B> for &A>::ne'))
